@@ -117,7 +117,7 @@ def drive_sync(script, timeout_s=0.05, strport=False):
             try:
                 if op == 'connect':
                     L.drop_peer()
-                    t.connect(a['tmo'] if 'tmo' in a else timeout_s)
+                    t.connect(a['tmo'] if 'tmo' in a else max(timeout_s, 2.0))        # (a generous connect timeout: on a loaded machine even a loopback connect can take more than a few milliseconds)
                     L.accept()
                     written = delivered = 0
                     epoch += 1
@@ -252,7 +252,7 @@ def drive_async(script, timeout_s=0.05, strport=False):
                 try:
                     if op == 'connect':
                         L.drop_peer()
-                        await t.connect(a['tmo'] if 'tmo' in a else timeout_s)
+                        await t.connect(a['tmo'] if 'tmo' in a else max(timeout_s, 2.0))        # (a generous connect timeout: on a loaded machine even a loopback connect can take more than a few milliseconds)
                         L.accept()
                         written = delivered = 0
                         epoch += 1
